@@ -194,6 +194,7 @@ type Engine struct {
 	MaxStack       int
 	StackCuts      int
 	pathsRun       int
+	forkCount      map[ssa.Instruction]int
 	MergeAfterCall bool
 	Profile        map[string]int
 	ProfileN       map[string]int
@@ -596,6 +597,9 @@ func (e *Engine) allocPool(p *Path, key string, lay []int, kind ObjKind, label s
 	}
 	if bound <= 1 {
 		// shared single slot: sound only if used at most once per execution
+		if e.DebugPaths {
+			fmt.Fprintf(os.Stderr, "POOL symbolic counter at %s leaves=%v\n", key, e.B.leaves(cnt))
+		}
 		e.RaiseFlag(p, "unwind", e.B.Not(e.B.Eq(cnt, e.B.BV(8, 0))))
 		a := slot(0)
 		zero(a, nil)
@@ -1017,7 +1021,22 @@ func (e *Engine) RunAll() []*Path {
 				fmt.Fprintf(os.Stderr, "    paths run=%d work=%d waiting=%d groups=%d done=%d terms=%d merges=%d\n", e.pathsRun, len(e.work), nw, len(e.waiting), len(e.done), e.B.NumTerms(), e.Merges)
 				if os.Getenv("VERIF_DUMPKEYS") != "" && len(e.waiting) > 3 && e.pathsRun > 3000 {
 					n := 0
-					for k := range e.waiting {
+					for k, g := range e.waiting {
+						fmt.Fprintf(os.Stderr, "GROUP size=%d\n", len(g))
+						for pi, pp := range g {
+							if pi > 4 {
+								break
+							}
+							fr := pp.Cur.top()
+							fi := e.info(fr.Fn)
+							desc := ""
+							for v, idx := range fi.idx {
+								if r := fr.Regs[idx]; r != nil && len(r) == 1 && r[0].IsConst() && r[0].W == 64 && r[0].Val < 100 {
+									desc += fmt.Sprintf(" %s=%d", v.Name(), r[0].Val)
+								}
+							}
+							fmt.Fprintf(os.Stderr, "   path fuel=%d consts:%s\n", pp.Fuel, desc)
+						}
 						fmt.Fprintf(os.Stderr, "KEY %s\n\n", k)
 						n++
 						if n > 6 {
@@ -1069,6 +1088,16 @@ func (e *Engine) joinKey(p *Path) string {
 	var sb strings.Builder
 	sb.WriteString(e.ConfigKey(p.Cur))
 	fmt.Fprintf(&sb, "|pid%d|res%v|", p.Cur.Pid, p.Resuming)
+	// Paths are merged only when their concrete integer registers (loop
+	// counters) agree: loops are unrolled per iteration and a merged counter
+	// never hides the loop bound from constant folding.
+	for fi, f := range p.Cur.Frames {
+		for i, r := range f.Regs {
+			if r != nil && len(r) == 1 && r[0].IsConst() && r[0].W == 64 && r[0].Val < 4096 {
+				fmt.Fprintf(&sb, "%d.%d=%d,", fi, i, r[0].Val)
+			}
+		}
+	}
 	for _, s := range p.Suspended {
 		sb.WriteString(e.ConfigKey(s))
 		sb.WriteString("#")
@@ -1553,6 +1582,26 @@ func (e *Engine) step(p *Path, instr ssa.Instruction) bool {
 				p.Guard = gt
 				e.jump(fr, fr.Block.Succs[0])
 			} else {
+				if e.DebugPaths {
+					if e.forkCount == nil {
+						e.forkCount = map[ssa.Instruction]int{}
+					}
+					e.forkCount[in]++
+					if e.forkCount[in] == 300 {
+						lv := ""
+						if b, ok := in.Cond.(*ssa.BinOp); ok {
+							for _, op := range []ssa.Value{b.X, b.Y} {
+								v := e.Eval(fr, op)
+								if l, ok := e.B.Leaves(v[0]); ok {
+									lv += fmt.Sprintf(" %s leaves=%v", op.Name(), l)
+								} else {
+									lv += fmt.Sprintf(" %s non-tree op=%d", op.Name(), v[0].Op)
+								}
+							}
+						}
+						fmt.Fprintf(os.Stderr, "HOT FORK in %s at %s: %s%s\n", fr.Fn, instrPos(in), in.Cond, lv)
+					}
+				}
 				q := p.fork(gf)
 				e.jump(q.Cur.top(), fr.Block.Succs[1])
 				e.Schedule(q)
